@@ -13,6 +13,8 @@ CLAIMED = {
          "Offence kinds are restricted per archive to definite mismatches (e.g. XML cannot tell an object from an array, a CSV cell is always a valid string). The unfaulted load is the specification for the neighbours."),
  "C10": ("exploration", "seeded simulation: differential memory-load vs stream-load of the same bytes under seeded delivery schedules of a simulated streambuf (file/pipe, 1..300 bytes per underflow), chunk-size knobs and storage-corruption faults; stream save vs memory save", "6 C10",
          "Samples the space of (document, corruption, delivery schedule, knob) tuples; the memory outcome is the specification, so an error shared by both readers is invisible. Trusted: libstdc++ iostreams, RapidJSON, pugixml, the harness models."),
+ "C18": ("exploration", "seeded simulation: histories of 2-6 loads into one persistent target holding every std adapter the library ships (sequence, associative, unordered containers, adapters, optional, smart pointers, bitset, tuple, pair, atomic, strings, nested combinations, CSV rows), with intermediate loads aborted midway by injected faults (EOF at a byte, k-th allocation failing, device error silent or thrown); final state compared with the same load into a default-constructed target; MapLoadMode::OnlyExistKeys/UpdateKeys against a reference map replaying the history; allocator ledger balanced after the target is destroyed", "6 C18",
+         "Differential against a fresh target: an error shared by both is invisible. Text formats: string fields are non-empty (\"\" is null there and null leaves a field unchanged by the documented rule). KF-XML-NULL-VS-EMPTY avoided in 63 of 64 runs."),
  "C20": ("fault_enumeration", "seeded simulation with exhaustive fault sweeps: for each seeded scenario (archive x dyn/zoo model x save/load x memory/stream) one fault kind is injected at EVERY position in turn - EOF at every byte, the k-th operator new failing for every k inside the library call, the simulated streambuf failing silently (badbit) or by throwing at every byte on load and on save, and library-detected errors at every place the scenario offers (CSV row width at every row, mismatched value at every field with ThrowError, unencodable text at every string, size() lie at every array); oracle = std::exception reaches the caller, no std::terminate/signal/sanitizer report/hang, MessagePack prefixes rejected, failure observable on return, exact allocator-ledger balance, partly loaded target reloadable", "6 C20",
          "Exhaustive per scenario, scenarios are sampled (exhaustive=false for the check). malloc inside RapidJSON/pugixml is not faulted. A leak must repeat on an immediate re-run to be reported (first-use statics are not leaks). fail@n is 'observable' when the call throws or the stream reports fail()."),
 }
@@ -29,7 +31,7 @@ NA = {
  "C16": "pure number<->text conversion",
  "C17": "pure function of (document, validators, maxValidationErrors); the error map lives and dies inside one call",
 }
-PENDING = {k: 'claimed in DESIGN.md; its check is still under construction in this session and is not registered until it runs clean' for k in ['C13','C18','C19']}
+PENDING = {k: 'claimed in DESIGN.md; its check is still under construction in this session and is not registered until it runs clean' for k in ['C13','C19']}
 
 def main():
     commits = subprocess.run(["git", "-C", "/repo", "log", "--format=%H %s"], stdout=subprocess.PIPE, text=True).stdout.splitlines()
